@@ -155,6 +155,14 @@ def replay_case(case):
         for attr in ("threshold_", "penalty_", "collective_penalty_", "point_penalty_"):
             if hasattr(ref, attr) and not close(float(getattr(ref, attr)), float(getattr(tst, attr))):
                 fails.append(("fitted_parameter_differs", {**tag, "attr": attr, "canonical": float(getattr(ref, attr)), "got": float(getattr(tst, attr))}))
+        # the public `scores` attribute written by predict (DP table / per-interval table) must agree as well
+        if entry in ("fit", "predict") and hasattr(ref, "scores") and hasattr(tst, "scores"):
+            try:
+                if not close(project(ref.scores), project(tst.scores)):
+                    fails.append(("scores_attribute_differs_from_canonical_representation",
+                                  {**tag, "canonical": str(project(ref.scores))[:200], "got": str(project(tst.scores))[:200]}))
+            except Exception as e:
+                fails.append(("raises", {**tag, "error": "scores: " + repr(e)[:150]}))
         for m, a, b in outs:
             if not close(project(a), project(b)):
                 fails.append(("output_differs_from_canonical_representation", {**tag, "method": m, "canonical": str(project(a))[:200], "got": str(project(b))[:200]}))
